@@ -93,7 +93,7 @@ def rule_a(prog, rep):
             bad.append(('#-continuation', t))
         if 'getL@None' in tb and ex not in ('ret',):
             bad.append(('literal-miss-must-stop', t))
-        if 'getL@Some' in tb and ex not in ('fall', 'continue'):
+        if 'getL@Some' in tb and ex.split(':')[0] not in ('fall', 'continue'):
             bad.append(('literal-hit-must-descend', t))
     n += 3
     if bad:
